@@ -10,8 +10,8 @@ P = {
     "C01": ("shadow-q native", "exact-rational shadow execution (cgmath monomorphised at a monitoring scalar) vs array model; native small-integer f32/f64 bit equality; native badly-scaled products vs double-double model",
             "Runs the real generic matrix code at an exact rational scalar on thousands of random matrices/vectors per dimension and compares every element with an independent column-major array model (layout readers, A*v, A*B, embeddings, constructors as transforms, element-wise ops, ring laws, all operand forms). Exact equality: no tolerance, so a refactoring that keeps the property cannot fire and any index/sign/term slip changes a low-degree polynomial and is seen on the first non-trivial case.",
             "Held on the executions explored (small rationals, f32/f64 small integers); i128 arithmetic; not a for-all proof."),
-    "C02": ("shadow-q native miri", "exact-rational shadow execution on generic, exactly singular and tiny-determinant matrices; mutation histories vs array model; native scaled integer matrices vs exact i128 determinant, bitwise exchange monitor, f32/f64 twin runs; Miri (thorough) for the unsafe helpers",
-            "invert() None iff Leibniz determinant = 0 decided exactly on three matrix families, two-sided inverse, determinant laws, transpose laws, swap/replace histories with all index pairs, inverse_transform = invert. Thorough tier adds the Miri workload over swap_*/determinant/invert.",
+    "C02": ("shadow-q native miri", "exact-rational shadow execution on generic, exactly singular and tiny-determinant matrices; mutation histories vs array model; native scaled integer matrices vs exact i128 determinant, bitwise exchange monitor, f32/f64 twin runs; Miri (Tree Borrows) over swap_*/replace_col/transpose_self/determinant/invert incl. out-of-range indices; thorough: valgrind memcheck + AddressSanitizer",
+            "invert() None iff Leibniz determinant = 0 decided exactly on three matrix families, two-sided inverse, determinant laws, transpose laws, swap/replace histories with all index pairs, inverse_transform = invert. Both tiers run the Miri workload over swap_*/replace_col/determinant/invert (out-of-range indices must panic); the thorough tier adds Stacked Borrows, valgrind and AddressSanitizer runs.",
             "Exact rationals in i128; UB only judged by Miri on the workload's executions (Tree Borrows gate)."),
     "C03": ("shadow-q native", "exact-rational shadow execution vs component model; native integer vectors with i128 overflow-free model",
             "All vector operators, 20 ElementWise methods, folds, dot/cross/perp-dot identities for dimensions 1-4 at an exact scalar, and the same component model on i8/u8/i32/u32/i64 where the model proves no overflow (overflow-checks on).",
